@@ -394,13 +394,48 @@ class C18Check(object):
                 if bb is not None:
                     add({"t": "weak_form", "op": bb[0]})
             elif kind == "mass_order":
-                add({"t": "set_global", "field": "quadrature.regular", "value": r.choice([1, 1, 2])})
+                # mass matrix / inverse mass matrix of ONE space across a change of the global order, in varying
+                # call orders (the cached mass matrix and its cached factorisation must both follow the order)
+                def op_on(si):
+                    nonlocal nops
+                    kd = space_kinds[si][0]
+                    cands = []
+                    for sp in b["ops"]:
+                        dk, tk = _admissible(sp, b["kinds"])
+                        if kd in dk and kd in tk:
+                            cands.append(sp)
+                    if not cands:
+                        return None
+                    spec = copy.deepcopy(r.choice(cands))
+                    asm = None if spec["family"] == "sparse" else r.choice(["dense", "only_singular_part"])
+                    add({"t": "create_op", "spec": spec, "dom": si, "dual": si, "assembler": asm, "precision": None, "params": None})
+                    nops += 1
+                    return nops - 1
+
                 si = r.randrange(max(1, nspaces))
-                add({"t": "mass_matrix", "space": si})
-                add({"t": "set_global", "field": "quadrature.regular", "value": r.choice([3, 4, 5])})
-                new_op()
-                add({"t": "strong_form", "op": max(0, nops - 1)})
-                add({"t": "mass_matrix", "space": si})
+                a_order = r.choice([1, 1, 2])
+                b_order = r.choice([3, 4, 5]) if a_order == 1 or r.random() < 0.5 else 1
+                if r.random() < 0.3:
+                    a_order, b_order = b_order, a_order
+                add({"t": "set_global", "field": "quadrature.regular", "value": a_order})
+                first = op_on(si) if r.random() < 0.6 else None
+                if first is not None:
+                    add({"t": "strong_form", "op": first})
+                else:
+                    add({"t": "mass_matrix", "space": si})
+                add({"t": "set_global", "field": "quadrature.regular", "value": b_order})
+                steps = ["mass", "strong"]
+                r.shuffle(steps)
+                for st in steps:
+                    if st == "mass":
+                        add({"t": "mass_matrix", "space": si})
+                    else:
+                        k2 = op_on(si)
+                        if k2 is not None:
+                            add({"t": "strong_form", "op": k2})
+                k3 = op_on(si)
+                if k3 is not None:
+                    add({"t": "strong_form", "op": k3})
             elif kind == "peer_retry":
                 if not enable["F3"]:
                     return
